@@ -16,6 +16,11 @@ Judge(e, i) ==
     ELSE IF e.form \notin L!Forms THEN Report(i, "MISMATCH", "harness: unknown gap form")
     ELSE IF e.cl # "*" /\ ~L!Applicable(e.form, e.cl, e.cr) THEN Report(i, "SKIP", "form not applicable at this boundary")
     ELSE IF e.same THEN TRUE
+    \* D_C13_encoding_control_comment: an ENCODING-CONTROL section is skipped textually up to END, so a comment that contains
+    \* keywords ends it early; only the forms whose comment text contains keywords, only inputs with such a section
+    ELSE IF e.encctl /\ e.form \in {"LINE_KEYWORDS", "MIXED"} THEN
+         (IF "D_C13_encoding_control_comment" \in KnownDevs THEN Report(i, "DEVIATION", "D_C13_encoding_control_comment")
+          ELSE Report(i, "MISMATCH", "a comment inside an ENCODING-CONTROL section changes the outcome (deviation D_C13_encoding_control_comment, not a listed known finding)"))
     ELSE IF e.status # e.base_status
          THEN Report(i, "MISMATCH", "white space / comment between two tokens changes the Ok/Err outcome (" \o e.form \o ", " \o e.mode \o ")")
          ELSE Report(i, "MISMATCH", "white space / comment between two tokens changes the bindings (" \o e.form \o ", " \o e.mode \o ")")
